@@ -221,6 +221,11 @@ pub struct StageResult {
     pub workers_restarted: u64,
 }
 
+fn slow_ms() -> u64 {
+    static V: std::sync::OnceLock<u64> = std::sync::OnceLock::new();
+    *V.get_or_init(|| std::env::var("C15_SLOW").ok().and_then(|s| s.parse().ok()).unwrap_or(0))
+}
+
 fn esc(s: &str) -> String {
     s.replace('\\', "\\\\").replace('\t', "\\t").replace('\n', "\\n").replace('\r', "\\r")
 }
@@ -269,8 +274,12 @@ fn worker_loop<S: Stages>(st: &S, slot: &Slot, log: &Log, stage: u32, start: u64
         slot.cur.store(case, Relaxed);
         slot.in_case.store(1, Release);
         arm(true);
+        let t_case = Instant::now();
         let r = vmc::catch(|| st.run(stage, case));
         arm(false);
+        if slow_ms() > 0 && t_case.elapsed().as_millis() as u64 >= slow_ms() {
+            log.write(&format!("S\t{stage}\t{case}\t{}\t{}\n", t_case.elapsed().as_millis(), esc(&st.describe(stage, case).0.chars().take(300).collect::<String>())));
+        }
         slot.in_case.store(0, Release);
         slot.counters[C_CASES].fetch_add(1, Relaxed);
         match r {
@@ -670,6 +679,11 @@ pub fn run_stages<S: Stages>(st: &'static S, workers: usize, dir: &std::path::Pa
                     results[pos].classes.insert(class);
                 }
                 _ => {}
+            }
+        }
+        if slow_ms() > 0 {
+            for line in text.lines().filter(|l| l.starts_with("S\t")) {
+                eprintln!("[slow] {line}");
             }
         }
         let _ = std::fs::remove_file(&path);
